@@ -100,7 +100,7 @@ def cmd_eval(args):
         print('    what : %s' % ch.get('what', '')[:300])
         print('    needs: %s' % ch.get('needs', '')[:300])
         if args.keep and valid:
-            d = os.path.join(VERIF, 'seeded', '%s_%d' % (prop, n))
+            d = os.path.join(VERIF, 'seeded', '%s_%d' % (prop, n + args.offset))
             os.makedirs(d, exist_ok=True)
             shutil.copy(diff, os.path.join(d, 'patch.diff'))
             shutil.copy(demo, os.path.join(d, 'demo.py'))
@@ -176,6 +176,7 @@ def main():
     e.add_argument('--all', action='store_true')
     e.add_argument('--keep', action='store_true')
     e.add_argument('--tier', default='quick')
+    e.add_argument('--offset', type=int, default=0, help='numbering offset for kept ids')
     r = sub.add_parser('recheck')
     r.add_argument('ids', nargs='*')
     r.add_argument('--in-repo', action='store_true')
